@@ -7,15 +7,57 @@ coordinate scale) of a bin edge, and pairs whose minimum image is tied at the ha
 side.  The right edge of the last bin is inclusive (np.histogram), which the interval rule covers as well.
 
 Preconditions imposed by the code under test (only such inputs are generated):
-  * type ids exactly 1..K with every type present, identical in all frames   (selectors `countsum == ...`, gr.py L308-590;
-    `typecount[k]` is indexed by position in np.unique, L208)
-  * same N and same box in all frames                                          (asserts in gr.__init__, L202-205)
+  * type ids exactly 1..K with every type present, same composition in all frames (selectors `countsum == ...`,
+    gr.py L308-590; `typecount[k]` is indexed by position in np.unique of frame 0, L208); the ARRANGEMENT of the labels
+    may differ from frame to frame (every loop reads snapshot.particle_type of its own frame)
+  * same N and same box edge lengths in all frames                             (asserts in gr.__init__, L202-205)
   * N >= 2                                                                     (`binedge` is taken from the last pair loop)
   * int(L_min / (2 rdelta)) >= 1 bin                                           (np.histogram(bins=0) raises)
   * ppp has one entry per dimension                                            (broadcast in remove_pbc)
+
+CLAUSES (statement + quantifier, clause -> deciding assertion [facets] -> populated class tags of evidence/C03.json)
+  1  one to five species, ids 1..K      -> exact column set r, gr, gr11..grKK, cross terms [all]           K1 K2 K3 K4 K5
+  2  more than five species: only total -> columns == [r, gr] and total inside the interval [ortho, tri,   K6 K7 K8
+                                           selector_table K = 6, 7, sized facets K = 6]
+  3  two or three dimensions            -> shell = pi(r_hi^2 - r_lo^2) | 4pi/3 (r_hi^3 - r_lo^3) [all]     d2 d3
+  4  orthogonal or triclinic cell       -> min image by fractional rounding with the frame's own H; V =     ortho tri general
+                                           |det H| [ortho, tri, sheared, halfbox; axis-permuted cells]     tilt-negative tilt-positive tilt-mixed-sign
+                                                                                                           tilt-differs-between-frames
+                                                                                                           axes-permuted-cell-not-lower-triangular
+                                                                                                           all-batches-inside-cartesian-half-box
+  5  any bin width                      -> every column inside [g_lo, g_hi] for widths giving 1 .. ~1000    width-frac width-nice width-exact width-dyadic
+                                           bins [ortho, tri, exact_width, dyadic, ordinary, minimal,       width-typical bins-1 bins-2 bins-3..40 bins-41+
+                                           count_boundary, deep]                                           bins-boundary-<n>
+  6  int(L_min/(2 width)) bins, crisp   -> len(table) == int(L_min / (2 w)) in double precision             nbin-quotient-nominally-integer
+                                           [all; exact_width, dyadic, representations aim at it]
+  7  bins start at zero, r_k = centre   -> r == w (k + 1/2) (1e-9) [all]                                   (every case)
+  8  any number of frames               -> frame average: counts / T [ortho, tri, sheared, deep,            frames1 frames2 frames3 frames4..8
+                                           count_boundary], per-frame cell, per-frame labels, any          frames-boundary-<T> labels-per-frame
+                                           TIMESTEP schedule                                               timesteps-repeated timesteps-decreasing
+  9  each column = V/(N_a N_b) <ordered -> every partial column inside its interval, BOTH directions        all-partials-populated some-partial-empty
+     a-b pairs in bin k> / shell_k         (lower and upper bound), all K(K+1)/2 + 1 columns [all]         single-particle-species in-range-pairs
+                                                                                                           no-pair-in-range ambiguous-pairs half-cell-ties
+ 10  total = sum_ab c_a c_b g_ab        -> identity on the returned columns, 1e-9 [all, K = 2..5]          (every K2..K5 case)
+ 11  every pair in exactly one column   -> selector_table: one a-b pair -> one count in exactly gr{ab},    pair-same pair-cross order0 order1
+                                           all 35 pairs x index order x host; clause 10 on random data
+ 12  periodicity masks                  -> reference wraps periodic axes only [all]                        mask-full mask-partial
+ 13  any positions (lattices, gases,    -> [ortho, tri, dyadic, ...]                                       kind-gas kind-cluster kind-lattice-* lattice-jittered
+     clusters), N >= 2                                                                                     outside-box N2 N3-9 N10-40 N41+
+ 14  arbitrary compositions             -> N_a from the labels [all]                                       single-particle-species labels-sorted
+                                                                                                           labels-last-single labels-first-single
+ 15  observe: returned DataFrame AND    -> CSV read back == returned frame at %.6f [all: half the cases]   csv
+     the CSV written
+Axes behind the clauses that were weak before this round and got a class now: particle number (was <= 40: size_boundary /
+size_sweep / size_boundary_large, `size-boundary-<N>`), bins and frames at block boundaries (count_boundary), per-frame
+labels (was absent), TIMESTEP schedules (was absent), K = 7, 8 in random data, histories on one object other than
+getresults() twice (`history-*`: the method getresults() dispatches to, unary() on a multi-species object), tables kept
+alive (retained), argument representations (representations: `rep-*`, incl. unsigned labels of the GSD reader, fix
+ca331f6), documented defaults of ppp / rdelta / outputfile (ordinary: `rep-*-default`), axis-permuted cells, whole
+batches inside the Cartesian half box (halfbox).
 """
 from __future__ import annotations
 
+import dataclasses
 import itertools
 import os
 
@@ -33,34 +75,56 @@ import pandas as pd
 from PyMatterSim.reader.reader_utils import Snapshots
 from PyMatterSim.static.gr import gr as GR
 
-RULE = ("generated trajectories: d {2,3} x cell {ortho unequal edges, LAMMPS triclinic with tilts of either sign} x any "
-        "origin x K 1..6 species (ids 1..K all present, arbitrary composition) x N max(2,K)..40 x 1..3 frames x "
-        "{gas, exact/jittered lattice, cluster, particles outside the box} x bin widths giving 3..40 bins (plus widths "
-        "that divide L_min/2 exactly) x all periodicity masks; plus sheared trajectories (per-frame tilt, same edges), "
-        "the everyday class (cubic box, N 16..40, widths 0.01..0.2) and minimal sizes (N = 2..3, one or two bins).  non-trivial = at least two columns populated inside the "
-        "histogram range (K in 2..5: two g columns with a non-zero entry; K = 1 or 6: the r and gr columns) and "
-        "(K >= 2 or triclinic or partially periodic)")
+RULE = ("generated trajectories: d {2,3} x cell {ortho unequal edges, LAMMPS triclinic with tilts of either sign, the same "
+        "after an axis permutation (not lower triangular)} x any origin x K 1..8 species (ids 1..K all present, arbitrary "
+        "composition) x N max(2,K)..40 x 1..3 frames (labels rearranged per frame, any TIMESTEP schedule) x {gas, "
+        "exact/jittered lattice, cluster, particles outside the box} x bin widths giving 3..40 bins (plus widths that "
+        "divide L_min/2 exactly) x all periodicity masks x histories on one object (getresults / dispatched method / "
+        "unary); plus sheared trajectories (per-frame tilt, same edges), the everyday class (cubic box, N 16..40, widths "
+        "0.01..0.2, documented defaults of ppp / rdelta / outputfile), minimal sizes (N = 2..3, one or two bins), N at "
+        "block boundaries 31..257 (thorough: ..1025) and anywhere in 41..260 (..1030), bins 31..257 and frames 31..66 "
+        "at block boundaries, value-equal argument representations (int64 cell / coordinates, int32 / int8 / float64 / "
+        "uint8 / uint16 / uint32 labels, list / tuple / float / bool mask, numpy / int width), whole batches inside the "
+        "Cartesian half box of a strongly tilted cell, and tables kept alive over interleaved evaluations.  non-trivial "
+        "= at least two columns populated inside the histogram range (K in 2..5: two g columns with a non-zero entry; K "
+        "= 1 or >= 6: the r and gr columns) and (K >= 2 or triclinic or partially periodic or N > 40)")
 ASSUMPTIONS = [
     "minimum image = fractional rounding (contract of C02); pairs tied at the half cell may take either image",
     "pairs within 1e-9 x coordinate scale of a bin edge may be counted in either neighbouring bin (or outside the range)",
-    "L_min is the smallest of the cell edge lengths hi-lo reported by the reader (diagonal of the LAMMPS h-matrix); "
-    "when L_min/(2 width) is within 1e-9 of an integer m and the operands are not short dyadic numbers, m-1 or m bins "
-    "are both accepted",
-    "volume V = |det h| (= product of the edge lengths for LAMMPS cells)",
-    "type ids exactly 1..K, all present; N >= 2; same N, box, types in all frames",
+    "L_min is the smallest of the cell edge lengths hi-lo reported by the reader (diagonal of the h-matrix); the number "
+    "of bins is the double-precision value of int(L_min / (2 width)) (every true-division order gives the same double)",
+    "volume V = |det h| (= product of the edge lengths for LAMMPS cells and their axis permutations)",
+    "type ids exactly 1..K, all present; N >= 2; same N, box edges and composition in all frames (the arrangement of "
+    "the labels may change from frame to frame: N_a comes from frame 0, membership from each frame)",
+    "unary() called directly on a multi-species object returns r and the total only (docs: 'only overall g(r)'); the "
+    "method getresults() dispatches to returns the same table as getresults()",
+    "a table handed out stays what it was when later evaluations run, and a caller overwriting a table it received "
+    "does not change what the next evaluation returns",
+    "value-equal representations accepted by the unchanged routine give the same table: int64 cell matrix / bounds / "
+    "coordinates, labels of any integer dtype (signed or unsigned) or float64, mask as list / tuple / bool / float / "
+    "int32 array, width as np.float64, np.float32 (dyadic value) or Python int; float32 coordinates are NOT generated "
+    "(the subtraction would round at 1e-7, beyond the ambiguity band)",
 ]
 MANIFEST = {
     "text": ("Differential test of static.gr.gr(...).getresults() against an independent brute-force pair histogram: "
-             "exact column set for K = 1..6 species, number of bins and bin centres, every total and partial column "
+             "exact column set for K = 1..8 species, number of bins and bin centres, every total and partial column "
              "inside the reference interval, total = sum_ab c_a c_b g_ab in every bin, CSV output equals the returned "
-             "frame to 6 decimals; facets ortho / triclinic / K in {4,5} / exact-division bin widths / dyadic grids / "
-             "sheared multi-frame trajectories (per-frame cell) / everyday cubic inputs / minimal sizes, plus an "
-             "exhaustive species-pair -> column table for K = 1..5 (both index orders, 2D and 3D)."),
+             "frame to 6 decimals; facets ortho / tri (incl. axis-permuted cells, per-frame labels, TIMESTEP schedules, "
+             "histories of getresults / dispatched method / unary on one object) / K in {4,5} / exact-division bin "
+             "widths / dyadic grids / sheared multi-frame trajectories (per-frame cell) / everyday cubic inputs with the "
+             "documented defaults / minimal sizes / particle numbers at block boundaries (31..257 quick, ..1025 "
+             "thorough; random facet + exhaustive sweep) / bins and frames at block boundaries / value-equal argument "
+             "representations (incl. unsigned labels) / whole batches inside the Cartesian half box of a tilted cell / "
+             "tables kept alive over interleaved evaluations, plus an exhaustive species-pair -> column table for K = "
+             "1..5 (both index orders, 2D and 3D)."),
     "note": ("Trusted base: pbt/ref/geom.py (fractional-rounding minimum image) and pbt/ref/paircorr.py (numpy only). "
              "Bin-edge and half-cell-tie ambiguity is resolved by an interval oracle, so the half-open/closed bin "
-             "convention itself is not asserted.  Inputs are small (N <= 40, <= 3 frames, <= 41 bins)."),
+             "convention itself is not asserted.  Quick tier: N <= 260, <= 66 frames, <= ~1000 bins; thorough tier: N "
+             "<= 1030, 8 frames x 400 bins x 260 particles.  Positions of the large configurations come from numpy "
+             "generators seeded by Hypothesis."),
     "technique": ("property-based testing (Hypothesis): reference-model differential with interval oracle, one "
-                  "metamorphic identity (composition-weighted sum of partials), one exhaustive finite enumeration"),
+                  "metamorphic identity (composition-weighted sum of partials), call histories with retained results, "
+                  "two exhaustive finite enumerations (species-pair table, boundary sizes)"),
 }
 
 
@@ -87,6 +151,70 @@ def case_st(draw, cell_kind="any", kset=(1, 2, 3, 4, 5, 6), nmin=2, nmax=40, fra
     case["rdelta"] = float(rdelta)
     case["wmode"] = mode
     case["csv"] = draw(st.booleans())
+    T = len(case["pos"])
+    if T >= 2:
+        if 2 <= K <= 5 and draw(st.integers(0, 1)):
+            case["ftypes"] = draw(frame_labels_st(case["types"], T))
+        sched = draw(st.sampled_from(["increasing", "increasing", "repeated", "decreasing"]))
+        if sched == "repeated":          # the same TIMESTEP written for every frame
+            case["timesteps"] = [case["timesteps"][0]] * T
+        elif sched == "decreasing":
+            case["timesteps"] = case["timesteps"][::-1]
+        case["sched"] = sched
+    if draw(st.integers(0, 3)) == 0:
+        case["calls"] = draw(calls_st(K))
+    if case["cell"]["kind"] == "tri" and draw(st.integers(0, 3)) == 0:
+        d = case["d"]
+        perm = draw(st.sampled_from([p_ for p_ in itertools.permutations(range(d)) if list(p_) != list(range(d))]))
+        permute_axes(case, perm)
+    return case
+
+
+@st.composite
+def frame_labels_st(draw, types, T):
+    """Per-frame species labels of a swap-Monte-Carlo / `fix atom/swap` trajectory: every frame carries its own
+    arrangement of the SAME multiset of labels (gr reads snapshot.particle_type of each frame; only the counts N_a come
+    from frame 0)."""
+    types = np.asarray(types)
+    N = len(types)
+    out = [types]
+    for _ in range(T - 1):
+        how = draw(st.sampled_from(["shuffle", "swap", "swap"]))
+        t = out[-1].copy()
+        if how == "shuffle":
+            t = types[list(draw(st.permutations(range(N))))]
+        else:
+            # exchange one particle of two different species (one accepted swap move)
+            a = int(draw(st.integers(0, N - 1)))
+            others = np.nonzero(t != t[a])[0]
+            if len(others):
+                b = int(others[draw(st.integers(0, len(others) - 1))])
+                t[a], t[b] = t[b], t[a]
+        out.append(t)
+    return out
+
+
+METHOD = {1: "unary", 2: "binary", 3: "ternary", 4: "quarternary", 5: "quinary"}
+
+
+def calls_st(K):
+    """A short history on ONE gr object: getresults() / the method getresults() dispatches to / unary() (documented:
+    'only overall g(r)') in different orders; every result is compared with the oracle."""
+    hist = [("getresults", "getresults"), ("unary", "getresults"), ("getresults", "unary", "getresults")]
+    if K in METHOD:
+        hist += [("getresults", "method"), ("method", "getresults"), ("method", "unary", "method")]
+    return st.sampled_from(hist).map(list)
+
+
+def permute_axes(case, perm):
+    """The same physical system with the Cartesian axes (and the cell vectors) relabelled: H' = P H P^T is no longer
+    lower triangular (cell kind 'general'), boxlength = diag(H') and the volume prod(boxlength) = |det H'| as before."""
+    perm = list(perm)
+    c = case["cell"]
+    case["cell"] = dict(c, H=c["H"][np.ix_(perm, perm)].copy(), lo=np.asarray(c["lo"])[perm].copy(), kind="general")
+    case["pos"] = [np.ascontiguousarray(p[:, perm]) for p in case["pos"]]
+    case["ppp"] = np.asarray(case["ppp"])[perm].copy()
+    case["perm"] = perm
     return case
 
 
@@ -149,10 +277,13 @@ def sheared_case_st(draw):
     lmin = float(L.min())
     rdelta = lmin / (2.0 * (draw(st.integers(3, 40)) + draw(fl(0.02, 0.98))))
     same_f = all(f is f0 for f in fr)
-    return {"d": d, "cell": cells[0], "cells": cells, "pos": pos, "types": draw(types_st(N, K)), "ppp": ppp, "K": K,
-            "kind": kind + ("-affine" if same_f else ""), "timesteps": [100 * k for k in range(T)],
-            "outside": bool(np.any(offs)), "rdelta": float(rdelta), "wmode": "frac", "csv": draw(st.booleans()),
-            "twice": True}
+    out = {"d": d, "cell": cells[0], "cells": cells, "pos": pos, "types": draw(types_st(N, K)), "ppp": ppp, "K": K,
+           "kind": kind + ("-affine" if same_f else ""), "timesteps": [100 * k for k in range(T)],
+           "outside": bool(np.any(offs)), "rdelta": float(rdelta), "wmode": "frac", "csv": draw(st.booleans()),
+           "twice": True}
+    if 2 <= K <= 5 and draw(st.integers(0, 2)) == 0:
+        out["ftypes"] = draw(frame_labels_st(out["types"], T))
+    return out
 
 
 @st.composite
@@ -175,10 +306,17 @@ def ordinary_case_st(draw):
     fr = [f0] + [draw(frac_st(N, d)) for _ in range(T - 1)]
     masks = [np.array(m_, dtype=int) for m_ in itertools.product([0, 1], repeat=d) if not all(m_)]
     ppp = np.ones(d, dtype=int) if draw(st.integers(0, 2)) else draw(st.sampled_from(masks))
-    rdelta = draw(st.sampled_from([0.01, 0.02, 0.05, 0.1, 0.1, 0.2]))
+    rdelta = draw(st.sampled_from([0.01, 0.01, 0.02, 0.05, 0.1, 0.1, 0.2]))
+    rep = {}
+    if d == 3 and np.all(ppp) and draw(st.booleans()):
+        rep["ppp"] = "default"               # gr(snapshots, rdelta=...): the documented default mask
+    if rdelta == 0.01 and draw(st.sampled_from([True, True, False])):
+        rep["rdelta"] = "default"            # gr(snapshots, ppp=...): the documented default width
+    if draw(st.booleans()):
+        rep["outputfile"] = "default"        # keyword omitted instead of None
     return {"d": d, "cell": cell, "pos": [f @ H for f in fr], "types": draw(types_st(N, K)), "ppp": ppp, "K": K,
             "kind": kind, "timesteps": [1000 * k for k in range(T)], "outside": False, "rdelta": float(rdelta),
-            "wmode": "typical", "csv": draw(st.booleans()), "shape": shape}
+            "wmode": "typical", "csv": draw(st.booleans()), "shape": shape, "rep": rep}
 
 
 @st.composite
@@ -205,6 +343,276 @@ def minimal_case_st(draw):
     return case
 
 
+# ----------------------------------------------------------------------------- sizes at block boundaries
+
+BLOCKS = (32, 50, 64, 100, 128, 200, 256, 500, 512, 1000, 1024)
+
+
+def boundary_sizes(lo, hi, blocks=BLOCKS):
+    """Particle numbers around typical block / tile / chunk sizes B: B-1, B, B+1, 2B-1, 2B, 2B+1, B + B//3."""
+    out = set()
+    for B in blocks:
+        out.update(n for n in (B - 1, B, B + 1, 2 * B - 1, 2 * B, 2 * B + 1, B + B // 3) if lo <= n <= hi)
+    return sorted(out)
+
+
+SIZES_QUICK = boundary_sizes(31, 260)        # 31 .. 257 (26 values)
+SIZES_THOROUGH = boundary_sizes(261, 1030)   # 266 .. 1025
+
+
+def random_labels(rng, N, K, how):
+    """Labels 1..K, every species present.  how: 'random' | 'sorted' (a file sorted by type: every late batch of
+    partners is of one species) | 'last-single' / 'first-single' (species K has exactly one particle, at the end /
+    the start of the arrays)."""
+    if how in ("last-single", "first-single") and K >= 2 and N > K:
+        rest = np.concatenate([np.arange(1, K), rng.integers(1, K, N - K)]) if K > 1 else np.ones(N - 1, dtype=int)
+        rest = rng.permutation(rest)
+        t = np.concatenate([rest, [K]]) if how == "last-single" else np.concatenate([[K], rest])
+        return t.astype(int)
+    t = np.concatenate([np.arange(1, K + 1), rng.integers(1, K + 1, N - K)]).astype(int)
+    return np.sort(t) if how == "sorted" else rng.permutation(t)
+
+
+def random_frames(rng, N, cell, T, kind, ppp):
+    """T configurations of N particles from a numpy generator (seed drawn by Hypothesis): ideal gas or clusters, half
+    of the time with whole cell vectors added along periodic axes (particles outside the box)."""
+    d = cell["d"]
+    out = []
+    for _ in range(T):
+        if kind == "cluster":
+            nc = int(rng.integers(1, 4))
+            f = (rng.random((nc, d))[rng.integers(0, nc, N)] + 0.08 * (2 * rng.random((N, d)) - 1)) % 1.0
+        else:
+            f = rng.random((N, d))
+        out.append(f)
+    offs = np.zeros((N, d))
+    if rng.integers(0, 2):
+        offs = rng.integers(-1, 2, (N, d)).astype(float) * np.asarray(ppp)
+    return [cell["lo"] + (f + offs) @ cell["H"] for f in out], bool(np.any(offs))
+
+
+@st.composite
+def sized_case_st(draw, sizes, generic, frames=(1, 1, 1, 2), bins=(2, 8), kset=(1, 2, 3, 4, 5, 5, 6)):
+    """Larger systems whose particle number sits at a block boundary (4 of 5 cases: one of `sizes`) or anywhere in
+    `generic`.  Positions and labels come from numpy generators seeded by Hypothesis (N x d element-wise draws are too
+    slow at these sizes); everything discrete is drawn by Hypothesis.  Few bins, few frames: the cost is the library's
+    O(N^2) pair loop."""
+    N = draw(st.sampled_from(list(sizes))) if draw(st.integers(0, 4)) else draw(st.integers(*generic))
+    d = draw(st.sampled_from([2, 3]))
+    K = draw(st.sampled_from(list(kset)))
+    T = draw(st.sampled_from(list(frames)))
+    cell = draw(cell_st(d, "any", lmin=2.0, lmax=30.0))
+    ppp = draw(ppp_st(d))
+    kind = draw(st.sampled_from(["gas", "gas", "cluster"]))
+    how = draw(st.sampled_from(["random", "random", "sorted", "last-single", "first-single"]))
+    per_frame = draw(st.booleans())
+    seed = draw(st.integers(0, 2 ** 32 - 1))
+    nb = draw(st.integers(*bins))
+    lmin = float(np.diag(cell["H"]).min())
+    rdelta = lmin / (2.0 * (nb + draw(fl(0.02, 0.98))))
+    return sized_case(N, d, K, T, cell, ppp, kind, how, per_frame, seed, rdelta, draw(st.booleans()))
+
+
+def sized_case(N, d, K, T, cell, ppp, kind, how, per_frame, seed, rdelta, csv):
+    rng = np.random.default_rng(seed)
+    pos, outside = random_frames(rng, N, cell, T, kind, ppp)
+    types = random_labels(rng, N, K, how)
+    case = {"d": d, "cell": cell, "pos": pos, "types": types, "ppp": np.asarray(ppp, dtype=int), "K": K,
+            "kind": kind, "timesteps": [10 * k for k in range(T)], "outside": outside, "rdelta": float(rdelta),
+            "wmode": "frac", "csv": bool(csv), "labels": how, "seed": int(seed)}
+    if per_frame and T >= 2 and 2 <= K <= 5:
+        case["ftypes"] = [types] + [rng.permutation(types) for _ in range(T - 1)]
+    return case
+
+
+COUNTS = boundary_sizes(31, 260, blocks=(32, 50, 64, 100, 128, 256))
+
+
+@st.composite
+def count_boundary_case_st(draw, counts=COUNTS, tmax=70):
+    """The other size axes at block boundaries: number of histogram bins (31 .. 257) or number of frames (31 .. tmax)
+    with few particles, so that the cost stays small."""
+    axis = draw(st.sampled_from(["bins", "bins", "frames"]))
+    d = draw(st.sampled_from([2, 3]))
+    K = draw(st.sampled_from([1, 2, 3, 4, 5, 6]))
+    cell = draw(cell_st(d, "any", lmin=2.0, lmax=30.0))
+    ppp = draw(ppp_st(d))
+    how = draw(st.sampled_from(["random", "sorted"]))
+    seed = draw(st.integers(0, 2 ** 32 - 1))
+    lmin = float(np.diag(cell["H"]).min())
+    if axis == "bins":
+        nb = draw(st.sampled_from(list(counts)))
+        T = draw(st.integers(1, 2))
+        N = draw(st.integers(max(6, K), 40))
+    else:
+        nb = draw(st.integers(3, 12))
+        T = draw(st.sampled_from([t for t in counts if t <= tmax]))
+        N = draw(st.integers(max(3, K), 8))
+    rdelta = lmin / (2.0 * (nb + draw(fl(0.05, 0.95))))
+    case = sized_case(N, d, K, T, cell, ppp, draw(st.sampled_from(["gas", "cluster"])), how, draw(st.booleans()), seed,
+                      rdelta, draw(st.booleans()))
+    case["count_axis"] = axis
+    return case
+
+
+def size_tag(N):
+    near = [B for B in BLOCKS if N in (B - 1, B, B + 1, 2 * B - 1, 2 * B, 2 * B + 1, B + B // 3)]
+    return f"size-boundary-{N}" if near else "size-generic-" + ("41..130" if N <= 130 else "131..260" if N <= 260 else "261+")
+
+
+def size_sweep(tier):
+    """Finite enumeration: EVERY boundary size of the tier once (K, dimension, cell kind, mask and label arrangement
+    cycle with the index, so each K = 1..6 meets several sizes), one frame, 3..6 bins."""
+    sizes = SIZES_QUICK if tier == "quick" else SIZES_QUICK + SIZES_THOROUGH
+    for idx, N in enumerate(sizes):
+        K = 1 + idx % 6
+        d = 2 + (idx // 2) % 2
+        tri = (idx // 3) % 2 == 1
+        L = np.array([7.0, 9.5, 8.25][:d]) + 0.5 * (idx % 5)
+        H = np.diag(L)
+        if tri:
+            H[1, 0] = (0.3 if idx % 2 else -0.4) * L[0]
+            if d == 3:
+                H[2, 1] = 0.2 * L[1]
+        cell = {"d": d, "kind": "tri" if tri else "ortho", "H": H, "lo": np.zeros(d), "origin": "zero"}
+        ppp = np.ones(d, dtype=int)
+        if idx % 4 == 3:
+            ppp[idx % d] = 0
+        how = ["random", "sorted", "last-single", "first-single"][idx % 4]
+        case = sized_case(N, d, K, 1, cell, ppp, "gas", how, False, 1000 + N, float(L.min()) / (2.0 * (3 + idx % 4) + 0.6),
+                          False)
+        try:
+            info = guarded_check(check, case)
+        except Violation as v:
+            v.case = case
+            raise
+        yield case, info
+
+
+# ----------------------------------------------------------------------------- argument representations
+
+
+@st.composite
+def rep_case_st(draw):
+    """Integer-valued geometry so that the SAME values can be passed in other representations: cell matrix / box
+    lengths / bounds as int64 (a hand-built `np.diag([10, 12, 9])`), coordinates as int64, labels as int32 / int8 /
+    float64 / uint32 / uint16 / uint8 (int64 is what the LAMMPS reader gives, uint32 what the GSD reader gives: typeid + 1;
+    unsigned labels wrapped in |t_j - t_i| before fix ca331f6), the mask as list / tuple / float / bool / int32, the bin width as
+    np.float64, np.float32 (a dyadic value) or a Python int.  All of them give the same table on the unchanged code."""
+    d = draw(st.sampled_from([2, 3]))
+    K = draw(st.sampled_from([1, 2, 3, 3, 4, 5, 6]))
+    tri = draw(st.booleans())
+    L = np.array([float(draw(st.integers(3, 16))) for _ in range(d)])
+    H = np.diag(L)
+    if tri:
+        def tilt(edge):
+            return float(draw(st.integers(-int(edge // 2), int(edge // 2))))
+        H[1, 0] = tilt(L[0])
+        if d == 3:
+            H[2, 0] = tilt(L[0])
+            H[2, 1] = tilt(L[1])
+        if not np.any(H - np.diag(L)):
+            H[1, 0] = 1.0
+    lo = np.array([float(draw(st.integers(-10, 10))) for _ in range(d)]) if draw(st.booleans()) else np.zeros(d)
+    cell = {"d": d, "kind": "tri" if tri else "ortho", "H": H, "lo": lo, "origin": "zero" if not lo.any() else "arbitrary"}
+    N = draw(st.integers(max(4, K), 24))
+    T = draw(st.integers(1, 2))
+    posint = draw(st.booleans())
+    step = 1 if posint else 4           # integer or quarter-integer coordinates
+    pos = []
+    for _ in range(T):
+        sites = draw(st.lists(st.tuples(*[st.integers(0, int(L[a]) * step - 1) for a in range(d)]), min_size=N, max_size=N,
+                              unique=True))
+        pos.append(lo + np.array(sites, dtype=float) / step)
+    lmin = float(L.min())
+    wkind = draw(st.sampled_from(["float", "float", "np.float64", "np.float32", "int"]))
+    if wkind == "int":
+        rdelta = float(draw(st.integers(1, max(1, int(lmin // 2)))))
+    elif wkind == "np.float32":
+        rdelta = draw(st.integers(3, 24)) / 16.0
+        if lmin / (2.0 * rdelta) < 1.0:
+            rdelta = 0.25
+    else:
+        rdelta = lmin / (2.0 * (draw(st.integers(2, 20)) + draw(fl(0.02, 0.98))))
+    rep = {"cell": draw(st.sampled_from(["int64", "int64", "float64"])),
+           "pos": "int64" if posint and draw(st.booleans()) else "float64",
+           "types": draw(st.sampled_from(["int64", "int32", "int8", "float64", "uint32", "uint32", "uint16", "uint8"])),
+           "ppp": draw(st.sampled_from(["int64", "int32", "float64", "bool", "list", "tuple"])),
+           "rdelta": wkind}
+    return {"d": d, "cell": cell, "pos": pos, "types": draw(types_st(N, K)), "ppp": draw(ppp_st(d)), "K": K,
+            "kind": "integer-grid" if posint else "quarter-grid", "timesteps": list(range(T)), "outside": False,
+            "rdelta": float(rdelta), "wmode": "rep-" + wkind, "csv": draw(st.booleans()), "rep": rep}
+
+
+# ----------------------------------------------------------------------------- whole batches in a critical region
+
+
+@st.composite
+def halfbox_case_st(draw):
+    """Every particle inside one Cartesian region smaller than half the edge lengths of a strongly tilted cell: ALL
+    displacements of ALL batches are short in every Cartesian component (|dx_a| < L_a/2), yet the fractional
+    coordinates of many of them exceed 1/2, so their minimum image is another one.  A short-cut that looks at the
+    largest Cartesian component of the whole batch ('nothing to wrap') only fires when no member of the batch is long;
+    a generator that spreads particles over the cell never produces such a batch."""
+    d = draw(st.sampled_from([2, 3]))
+    K = draw(st.sampled_from([1, 1, 2, 3, 4, 5, 6]))
+    L = np.array([draw(nice_float(2.0, 20.0)) for _ in range(d)])
+    H = np.diag(L)
+    big = st.sampled_from([-0.5, -0.45, -0.4, -0.3, 0.3, 0.4, 0.45, 0.5])
+    H[1, 0] = draw(big) * L[0]
+    if d == 3:
+        H[2, 0] = draw(st.one_of(st.just(0.0), big)) * L[0]
+        H[2, 1] = draw(st.one_of(st.just(0.0), big)) * L[1]
+    lo = np.zeros(d) if draw(st.booleans()) else np.array([draw(nice_float(-20.0, 20.0)) for _ in range(d)])
+    cell = {"d": d, "kind": "tri", "H": H, "lo": lo, "origin": "zero" if not lo.any() else "arbitrary"}
+    N = draw(st.integers(max(4, K), 28))
+    T = draw(st.integers(1, 2))
+    corner = np.array([draw(fl(0.0, 1.0)) for _ in range(d)]) * L
+    pos = [lo + corner + draw(frac_st(N, d)) * (0.49 * L) for _ in range(T)]
+    # periodic at least along the first axis (the one that receives the tilt components)
+    masks = [np.array(m_, dtype=int) for m_ in itertools.product([0, 1], repeat=d) if m_[0]]
+    ppp = np.ones(d, dtype=int) if draw(st.booleans()) else draw(st.sampled_from(masks))
+    lmin = float(L.min())
+    rdelta = lmin / (2.0 * (draw(st.integers(3, 30)) + draw(fl(0.02, 0.98))))
+    return {"d": d, "cell": cell, "pos": pos, "types": draw(types_st(N, K)), "ppp": ppp, "K": K, "kind": "cartesian-half-box",
+            "timesteps": [5 * k for k in range(T)], "outside": False, "rdelta": float(rdelta), "wmode": "frac",
+            "csv": False, "halfbox": True}
+
+
+# ----------------------------------------------------------------------------- results kept alive
+
+
+@st.composite
+def retained_case_st(draw):
+    """Several gr objects with the SAME key parameters (K, number of bins, N, cell) and different data, plus one with
+    other parameters, evaluated in an interleaved order; every table handed out stays alive until the end."""
+    a = draw(case_st("any", kset=(1, 2, 2, 3, 3, 4, 5, 6), nmin=4, nmax=16, frames=(1, 2)))
+    a["csv"] = False
+    a.pop("calls", None)
+    N, d, K = len(a["types"]), a["d"], a["K"]
+    T = len(a["pos"])
+    cellA = a["cell"]
+    b = dict(a)
+    b["pos"] = [cellA["lo"] + draw(frac_st(N, d)) @ cellA["H"] for _ in range(T)]
+    b["types"] = draw(types_st(N, K))
+    b.pop("ftypes", None)
+    b["outside"] = False
+    c = draw(case_st("any", kset=(1, 2, 3, 4, 5), nmin=4, nmax=12, frames=(1, 1)))
+    c["csv"] = False
+    c.pop("calls", None)
+    order = draw(st.lists(st.sampled_from([0, 1, 2, 0, 1]), min_size=3, max_size=6))
+    if 0 not in order:
+        order.append(0)
+    if 1 not in order:
+        order.insert(1, 1)
+    out = dict(a)
+    out["subs"] = [a, b, c]
+    out["order"] = [int(k) for k in order]
+    out["scribble"] = draw(st.booleans())
+    out["kind"] = "retained"
+    return out
+
+
 # ----------------------------------------------------------------------------- the check
 
 
@@ -219,29 +627,107 @@ def _band(case):
     return pc.BAND_REL * scale
 
 
+def labels_of(case):
+    """One label array per frame (per-frame labels when the case carries them)."""
+    return case["ftypes"] if case.get("ftypes") else [case["types"]] * len(case["pos"])
+
+
+def _exact(x, dtype, what):
+    y = np.asarray(x).astype(dtype)
+    if not np.array_equal(y.astype(float), np.asarray(x, dtype=float)):
+        raise ValueError(f"{what} is not exactly representable as {dtype}")      # harness error: generator bug
+    return y
+
+
+def represent(snap, rep):
+    """The same snapshot with some arrays in another, value-equal representation."""
+    kw = {}
+    if rep.get("types", "int64") != "int64":
+        kw["particle_type"] = _exact(snap.particle_type, rep["types"], "labels")
+    if rep.get("cell") == "int64":
+        kw["hmatrix"] = _exact(snap.hmatrix, np.int64, "hmatrix")
+        kw["boxlength"] = _exact(snap.boxlength, np.int64, "boxlength")
+        kw["boxbounds"] = _exact(snap.boxbounds, np.int64, "boxbounds")
+        if snap.realbounds is not None:
+            kw["realbounds"] = _exact(snap.realbounds, np.int64, "realbounds")
+    if rep.get("pos") == "int64":
+        kw["positions"] = _exact(snap.positions, np.int64, "positions")
+    return dataclasses.replace(snap, **kw) if kw else snap
+
+
 def build_snapshots(case):
-    snaps = [snapshot_from(c, p, case["types"], ts) for c, p, ts in zip(cells_of(case), case["pos"], case["timesteps"])]
+    rep = case.get("rep")
+    snaps = [snapshot_from(c, p, t, ts) for c, p, t, ts in zip(cells_of(case), case["pos"], labels_of(case),
+                                                               case["timesteps"])]
+    if rep:
+        snaps = [represent(s_, rep) for s_ in snaps]
     return Snapshots(nsnapshots=len(snaps), snapshots=snaps)
 
 
+def mask_arg(case):
+    p = [int(x) for x in case["ppp"]]
+    how = (case.get("rep") or {}).get("ppp", "int64")
+    if how == "list":
+        return list(p)
+    if how == "tuple":
+        return tuple(p)
+    return np.array(p, dtype={"int64": np.int64, "int32": np.int32, "float64": np.float64, "bool": bool}[how])
+
+
+def width_arg(case):
+    w = case["rdelta"]
+    how = (case.get("rep") or {}).get("rdelta", "float")
+    if how == "np.float64":
+        return np.float64(w)
+    if how == "np.float32":
+        if float(np.float32(w)) != w:
+            raise ValueError("bin width not representable in float32")
+        return np.float32(w)
+    if how == "int":
+        if int(w) != w:
+            raise ValueError("bin width not an integer")
+        return int(w)
+    return float(w)
+
+
 def make_gr(case, outputfile=None):
-    return GR(build_snapshots(case), ppp=np.array(case["ppp"], dtype=int), rdelta=case["rdelta"], outputfile=outputfile)
+    rep = case.get("rep") or {}
+    kw = {}
+    if rep.get("ppp") == "default":          # documented default np.array([1, 1, 1]): 3D, fully periodic
+        if case["d"] != 3 or not np.all(case["ppp"]):
+            raise ValueError("default mask only for fully periodic 3D cases")
+    else:
+        kw["ppp"] = mask_arg(case)
+    if rep.get("rdelta") == "default":       # documented default 0.01
+        if case["rdelta"] != 0.01:
+            raise ValueError("default width is 0.01")
+    else:
+        kw["rdelta"] = width_arg(case)
+    if outputfile is not None or not rep.get("outputfile") == "default":
+        kw["outputfile"] = outputfile
+    return GR(build_snapshots(case), **kw)
 
 
 def run_gr(case, outputfile=None):
     return make_gr(case, outputfile).getresults()
 
 
-def compare(case, df, tag="gr"):
-    """Compare one returned DataFrame with the reference.  Returns (populated columns, reference dict, nbin)."""
+def reference(case, nbin):
+    return pc.partial_gr_bounds(case["pos"], [c["H"] for c in cells_of(case)], case["ppp"],
+                                case["ftypes"] if case.get("ftypes") else np.asarray(case["types"]),
+                                case["rdelta"], nbin, _band(case))
+
+
+def compare(case, df, tag="gr", ref=None, total_only=False):
+    """Compare one returned DataFrame with the reference.  Returns (populated columns, reference dict, nbin, values).
+    total_only: the table of a direct unary() call on a multi-species object (documented: 'only overall g(r)')."""
     d, K = case["d"], case["K"]
     H = case["cell"]["H"]
     types = np.asarray(case["types"])
     N = len(types)
-    T = len(case["pos"])
     width = case["rdelta"]
-    require(isinstance(df, pd.DataFrame), f"{tag}: getresults() returned {type(df).__name__}, not a DataFrame")
-    names = pc.column_names(K)
+    require(isinstance(df, pd.DataFrame), f"{tag}: returned {type(df).__name__}, not a DataFrame")
+    names = pc.column_names(1 if total_only else K)
     columns(tag, df, names)
     lmin = float(np.diag(H).min())
     allowed = pc.nbins_allowed(lmin, width)
@@ -251,10 +737,10 @@ def compare(case, df, tag="gr"):
     vals = {c: arr(f"{tag}[{c}]", col(tag, df, c), shape=(nbin,)).astype(float) for c in names}
     close(f"{tag}[r] (bin centres)", vals["r"], pc.bin_centres(nbin, width), rtol=1e-9, atol=1e-12 * lmin)
 
-    ref = pc.partial_gr_bounds(case["pos"], [c["H"] for c in cells_of(case)], case["ppp"], types, width, nbin,
-                               _band(case))
+    if ref is None:
+        ref = reference(case, nbin)
     between(f"{tag}[gr] (total)", vals["gr"], ref["lo"]["gr"], ref["hi"]["gr"], slack=1e-9)
-    if 2 <= K <= 5:
+    if 2 <= K <= 5 and not total_only:
         for a in range(1, K + 1):
             for b in range(a, K + 1):
                 c = f"gr{a}{b}"
@@ -271,40 +757,66 @@ def compare(case, df, tag="gr"):
     return populated, ref, nbin, vals
 
 
+def call(obj, how, K):
+    if how == "getresults":
+        return obj.getresults()
+    if how == "method":
+        return getattr(obj, METHOD[K])()
+    return obj.unary()
+
+
+def check_csv(fn, names, nbin, vals):
+    require(os.path.exists(fn), "outputfile given but no CSV written")
+    try:
+        back = pd.read_csv(fn)
+    except Exception as e:  # noqa: BLE001
+        raise Violation(f"CSV written by gr cannot be read back: {e}")
+    columns("csv", back, names)
+    require(len(back) == nbin, f"csv has {len(back)} rows, DataFrame has {nbin}")
+    for c in names:
+        close(f"csv[{c}] vs returned frame (%.6f)", col("csv", back, c).astype(float), vals[c],
+              rtol=1e-12, atol=5.0001e-7)
+    os.remove(fn)
+
+
+def wrapped_pairs(case):
+    """Number of pairs whose minimum image differs from the raw displacement (frame 0)."""
+    from ..ref import geom
+    pos = np.asarray(case["pos"][0], dtype=float)
+    ii, jj = np.triu_indices(len(pos), k=1)
+    disp = pos[jj] - pos[ii]
+    vec, _ = geom.min_image(disp, case["cell"]["H"], case["ppp"])
+    scale = float(np.abs(case["cell"]["H"]).max())
+    return int((np.abs(vec - disp).max(axis=1) > 1e-6 * scale).sum())
+
+
 def check(case):
     d, K = case["d"], case["K"]
     fn = os.path.join(os.getcwd(), "gr_out.csv") if case.get("csv") else None
     obj = make_gr(case, fn)
-    df = obj.getresults()
-    populated, ref, nbin, vals = compare(case, df)
-    if case.get("twice"):
-        # asking the same object again must give the same table (no state accumulated by the first call)
-        df2 = obj.getresults()
-        require(isinstance(df2, pd.DataFrame), "second getresults() did not return a DataFrame")
-        columns("second getresults()", df2, pc.column_names(K))
-        for c in pc.column_names(K):
-            close(f"second getresults()[{c}] vs first", col("second", df2, c).astype(float), vals[c], rtol=1e-12,
-                  atol=1e-12 * max(1.0, float(np.abs(vals[c]).max())))
-    if fn:
-        require(os.path.exists(fn), "outputfile given but no CSV written")
-        try:
-            back = pd.read_csv(fn)
-        except Exception as e:  # noqa: BLE001
-            raise Violation(f"CSV written by gr cannot be read back: {e}")
-        columns("csv", back, pc.column_names(K))
-        require(len(back) == nbin, f"csv has {len(back)} rows, DataFrame has {nbin}")
-        for c in pc.column_names(K):
-            close(f"csv[{c}] vs returned frame (%.6f)", col("csv", back, c).astype(float), vals[c],
-                  rtol=1e-12, atol=5.0001e-7)
-        os.remove(fn)
+    calls = case.get("calls") or (["getresults", "getresults"] if case.get("twice") else ["getresults"])
+    ref = None
+    populated = nbin = vals = None
+    for n, how in enumerate(calls):
+        # every evaluation of the same object must give the table of the definition (no state accumulated by an
+        # earlier call, whichever public method it was)
+        df = call(obj, how, K)
+        tag = "gr" if n == 0 and how == "getresults" else f"call {n + 1} on one object: {how}()"
+        total_only = how == "unary" and 2 <= K <= 5
+        pop_, ref, nbin_, vals_ = compare(case, df, tag, ref, total_only=total_only)
+        if fn:
+            check_csv(fn, pc.column_names(1 if total_only else K), nbin_, vals_)
+        if populated is None or not total_only:
+            populated, nbin, vals = pop_, nbin_, vals_
 
-    tri = case["cell"]["kind"] == "tri"
+    tri = case["cell"]["kind"] in ("tri", "general")
     sheared = bool(case.get("cells")) and any(not np.array_equal(c["H"], case["cells"][0]["H"]) for c in case["cells"])
     masked = not bool(np.all(case["ppp"]))
-    if 2 <= K <= 5:
+    if 2 <= K <= 5 and len(pc.column_names(K)) == len(vals):
         nontrivial = len(populated) >= 2
     else:
-        nontrivial = len(populated) >= 1 and (tri or masked)
+        nontrivial = len(populated) >= 1 and (tri or masked or len(case["types"]) > 40)
+    N = len(case["types"])
     tags = [f"K{K}", f"d{d}", case["cell"]["kind"], f"frames{len(case['pos'])}", "kind-" + case["kind"].split("-jit")[0],
             "mask-partial" if masked else "mask-full", "width-" + case["wmode"],
             "origin-" + case["cell"]["origin"]]
@@ -316,7 +828,13 @@ def check(case):
         tags.append("tilt-differs-between-frames")
     if case.get("shape"):
         tags.append("shape-" + case["shape"])
-    tags.append("N2" if len(case["types"]) == 2 else ("N3-9" if len(case["types"]) < 10 else "N10+"))
+    if tri:
+        off = case["cell"]["H"] - np.diag(np.diag(case["cell"]["H"]))
+        tags.append("tilt-negative" if (off < 0).any() and not (off > 0).any() else
+                    "tilt-positive" if (off > 0).any() and not (off < 0).any() else "tilt-mixed-sign")
+    tags.append("N2" if N == 2 else ("N3-9" if N < 10 else ("N10-40" if N <= 40 else "N41+")))
+    if N > 40:
+        tags.append(size_tag(N))
     tags.append("bins-1" if nbin == 1 else ("bins-2" if nbin == 2 else ("bins-3..40" if nbin <= 41 else "bins-41+")))
     tags.append("in-range-pairs" if np.any(ref["cnt_hi"]["gr"] > 0) else "no-pair-in-range")
     if ref["ambiguous"]:
@@ -332,9 +850,73 @@ def check(case):
         tags.append("all-partials-populated" if len(populated) == npart + 1 else "some-partial-empty")
     if min(ref["n_of"].values()) == 1:
         tags.append("single-particle-species")
-    return {"nontrivial": bool(nontrivial), "tags": tags,
-            "extra": {"ambiguous_pairs": int(ref["ambiguous"]), "tied_pairs": int(ref["ties"]),
-                      "columns_checked": len(pc.column_names(K)) - 1}}
+    if case.get("ftypes"):
+        moved = any(not np.array_equal(t, case["ftypes"][0]) for t in case["ftypes"][1:])
+        tags.append("labels-per-frame" if moved else "labels-per-frame-unchanged")
+    if case.get("sched"):
+        tags.append("timesteps-" + case["sched"])
+    if case.get("calls"):
+        tags.append("history-" + ">".join(calls))
+    elif case.get("twice"):
+        tags.append("history-getresults-twice")
+    if case.get("labels"):
+        tags.append("labels-" + case["labels"])
+    if case.get("count_axis") == "bins":
+        tags.append(f"bins-boundary-{nbin}")
+    if case.get("count_axis") == "frames":
+        tags.append(f"frames-boundary-{len(case['pos'])}")
+    if case.get("perm"):
+        tags.append("axes-permuted-cell-not-lower-triangular")
+    if np.array_equal(np.sort(case["types"]), np.asarray(case["types"])) and K >= 2:
+        tags.append("labels-in-ascending-order")
+    for k_, v_ in (case.get("rep") or {}).items():
+        tags.append(f"rep-{k_}-{v_}")
+    extra = {"ambiguous_pairs": int(ref["ambiguous"]), "tied_pairs": int(ref["ties"]),
+             "columns_checked": len(pc.column_names(K)) - 1}
+    if case.get("halfbox"):
+        nw = wrapped_pairs(case)
+        tags.append("all-batches-inside-cartesian-half-box")
+        tags.append("wrapped-pairs" if nw else "no-wrapped-pair")
+        extra["wrapped_pairs"] = nw
+        nontrivial = nontrivial and nw > 0
+    return {"nontrivial": bool(nontrivial), "tags": tags, "extra": extra}
+
+
+def check_retained(case):
+    """Several objects, interleaved evaluations, every table kept: each is compared with the oracle when it is handed
+    out and a copy is taken; at the end EVERY table must still be bit-for-bit what it was (a work buffer handed out to
+    the caller is right at the moment of return and wrong after the next call with the same key).  Then the caller
+    scribbles over the tables it owns and evaluates every object once more: the new tables must again be those of the
+    definition (a cached frame handed out twice would carry the scribble)."""
+    subs = case["subs"]
+    objs = [make_gr(c) for c in subs]
+    refs = [None] * len(subs)
+    kept = []
+    for n, k in enumerate(case["order"]):
+        df = objs[k].getresults()
+        _, refs[k], _, _ = compare(subs[k], df, f"evaluation {n + 1} (object {k})", refs[k])
+        kept.append((n, k, df, df.copy(deep=True)))
+    for n, k, df, snap in kept:
+        require(list(df.columns) == list(snap.columns) and len(df) == len(snap),
+                f"table handed out by evaluation {n + 1} (object {k}) changed its layout after later evaluations")
+        for c in snap.columns:
+            got, want = np.asarray(df[c].values), np.asarray(snap[c].values)
+            require(np.array_equal(got, want),
+                    lambda: f"table handed out by evaluation {n + 1} (object {k}): column {c} changed after later "
+                            f"evaluations; first at bin {int(np.argmax(got != want))}: was "
+                            f"{want[np.argmax(got != want)]!r}, is now {got[np.argmax(got != want)]!r}")
+    tags = [f"K{subs[0]['K']}", f"evaluations-{len(case['order'])}", "same-key-objects-interleaved"]
+    if case["scribble"]:
+        for _, _, df, _ in kept:
+            df.iloc[:, :] = -7.0
+        for k, c in enumerate(subs):
+            compare(c, objs[k].getresults(), f"object {k} evaluated after the caller overwrote the earlier tables", refs[k])
+        tags.append("caller-overwrites-returned-tables")
+    pops = [np.any(refs[k]["cnt_hi"]["gr"] > 0) for k in (0, 1)]
+    repeated = len(set(case["order"])) < len(case["order"])
+    if repeated:
+        tags.append("object-evaluated-again-later")
+    return {"nontrivial": bool(all(pops)), "tags": tags, "extra": {"tables_kept": len(kept)}}
 
 
 def describe(case):
@@ -342,6 +924,11 @@ def describe(case):
     out["rdelta"] = case["rdelta"]
     if case.get("cells"):
         out["H_per_frame"] = [np.round(c["H"], 4).tolist() for c in case["cells"]]
+    for k in ("rep", "calls", "sched", "labels", "seed", "order", "scribble"):
+        if case.get(k) is not None:
+            out[k] = case[k]
+    if case.get("ftypes"):
+        out["types_per_frame"] = [np.asarray(t).tolist()[:12] for t in case["ftypes"]]
     return out
 
 
@@ -434,11 +1021,19 @@ _sel = Facet("selector_table", check=selector_table, exhaustive=True, describe=d
                   "count in exactly column gr{ab}; K = 6, 7 -> only r, gr")
 _sel.replay = lambda case: guarded_check(selector_check, case)  # noqa: E731
 
+_sweep = Facet("size_sweep", check=size_sweep, exhaustive=True, describe=lambda case: describe(case),
+               rule="finite: every boundary particle number of the tier once (quick: 26 values 31..257; thorough: + 35 "
+                    "values 266..1025), K / dimension / cell / mask / label arrangement cycling with the index, one "
+                    "frame, 3..6 bins")
+_sweep.replay = lambda case: guarded_check(check, case)  # noqa: E731
+
+KSET = (1, 2, 3, 4, 5, 6, 1, 2, 3, 4, 5, 6, 7, 8)      # more than five species: 6 mostly, 7 and 8 now and then
+
 FACETS = [
     _sel,
-    Facet("ortho", case_st("ortho"), check, quick=180, thorough=6000, describe=describe, shards_quick=4,
+    Facet("ortho", case_st("ortho", kset=KSET), check, quick=180, thorough=6000, describe=describe, shards_quick=4,
           rule="orthogonal cells with unequal edges, K 1..6, all masks, 1..3 frames; non-trivial as in RULE"),
-    Facet("tri", case_st("tri"), check, quick=180, thorough=6000, describe=describe, shards_quick=4,
+    Facet("tri", case_st("tri", kset=KSET), check, quick=180, thorough=6000, describe=describe, shards_quick=4,
           rule="LAMMPS triclinic cells (tilts of either sign), K 1..6, all masks, 1..3 frames; non-trivial as in RULE"),
     Facet("k45", case_st("any", kset=(4, 4, 5, 5, 5), nmin=8, nmax=32, frames=(1, 2)), check, quick=180, thorough=6000,
           describe=describe, shards_quick=4,
@@ -458,4 +1053,33 @@ FACETS = [
     Facet("dyadic", dyadic_case_st(), check, quick=120, thorough=4000, describe=describe, shards_quick=2,
           rule="power-of-two boxes, particles on a 1/16 grid, power-of-two widths: crisp number of bins, many pairs "
                "exactly on bin edges / at the half cell; non-trivial as in RULE"),
+    _sweep,
+    Facet("size_boundary", sized_case_st(SIZES_QUICK, (41, 260)), check, quick=40, thorough=1500, describe=describe,
+          shards_quick=4,
+          rule="N at block boundaries (B-1, B, B+1, 2B-1, 2B, 2B+1, B+B//3 for B in 32, 50, 64, 100, 128, 200, 256; 4 of 5 "
+               "cases) or anywhere in 41..260, K 1..6, 2D/3D, ortho/tri, all masks, 1..2 frames (per-frame labels), labels "
+               "random / sorted / single last / single first, 2..8 bins; non-trivial as in RULE (K = 1, 6: any populated "
+               "total)"),
+    Facet("count_boundary", count_boundary_case_st(), check, quick=44, thorough=2000, describe=describe, shards_quick=2,
+          rule="number of bins (2 of 3 cases) or number of frames at block boundaries (31..257 bins with N 6..40; 31..66 "
+               "frames with N 3..8), K 1..6, per-frame labels; non-trivial as in RULE"),
+    Facet("size_boundary_large", sized_case_st(SIZES_THOROUGH, (261, 1030)), check, quick=0, thorough=400,
+          describe=describe,
+          rule="thorough tier only: N around 500, 512, 1000, 1024 (and 2B+-1, B+B//3 of 128, 200, 256) or anywhere in "
+               "261..1030; otherwise as size_boundary"),
+    Facet("deep", sized_case_st(SIZES_QUICK, (41, 160), frames=(3, 4, 6, 8), bins=(40, 400)), check, quick=0, thorough=400,
+          describe=describe,
+          rule="thorough tier only: 41..260 particles, 3..8 frames (per-frame labels), 40..400 bins; non-trivial as in RULE"),
+    Facet("representations", rep_case_st(), check, quick=140, thorough=5000, describe=describe, shards_quick=2,
+          rule="integer-valued geometry passed in other representations: int64 cell / bounds / coordinates, labels int32 / "
+               "int8 / float64 / uint32 / uint16 / uint8, mask as list / tuple / float / bool / int32, width as np.float64 / np.float32 / int; "
+               "non-trivial as in RULE"),
+    Facet("halfbox", halfbox_case_st(), check, quick=100, thorough=4000, describe=describe, shards_quick=2,
+          rule="strongly tilted cell, all particles inside a Cartesian region below half the edge lengths: every batch of "
+               "displacements is short in all Cartesian components while many need another image; non-trivial: as in "
+               "RULE and at least one pair whose minimum image differs from the raw displacement"),
+    Facet("retained", retained_case_st(), check_retained, quick=60, thorough=3000, describe=describe, shards_quick=2,
+          rule="2 objects with the same K / bins / N and different data + 1 other, 3..6 interleaved evaluations, all "
+               "tables kept and re-compared bit-for-bit at the end; then the caller overwrites them and every object is "
+               "evaluated again; non-trivial: both same-key objects have pairs in range"),
 ]
